@@ -368,6 +368,16 @@ def rule_D2(ctx):
     fors = [n for n in own_nodes(af) if isinstance(n, ast.For) and isinstance(n.iter, ast.Call) and norm(n.iter.func) == "range"
             and any(isinstance(x, ast.While) for x in ast.walk(n))]
     ok = len(fors) == 1 and [norm(a) for a in fors[0].iter.args] == ["size"]
+    if not ok and len(fors) == 1 and len(fors[0].iter.args) == 1:
+        # range(len(L)) with L created as `[x] * size` and never resized is range(size)
+        a_ = fors[0].iter.args[0]
+        if isinstance(a_, ast.Call) and isinstance(a_.func, ast.Name) and a_.func.id == "len" and len(a_.args) == 1 and isinstance(a_.args[0], ast.Name):
+            L_ = a_.args[0].id
+            defs_ = [x for x in own_nodes(af) if isinstance(x, ast.Assign) and len(x.targets) == 1 and norm(x.targets[0]) == L_]
+            stores_ = [x for x in own_nodes(af) if isinstance(x, ast.Name) and x.id == L_ and isinstance(x.ctx, (ast.Store, ast.Del))]
+            grows_ = [x for x in own_nodes(af) if isinstance(x, ast.Call) and isinstance(x.func, ast.Attribute) and norm(x.func.value) == L_]
+            ok = len(defs_) == 1 and len(stores_) == 1 and not grows_ and isinstance(defs_[0].value, ast.BinOp) and isinstance(defs_[0].value.op, ast.Mult) \
+                and isinstance(defs_[0].value.left, ast.List) and len(defs_[0].value.left.elts) == 1 and norm(defs_[0].value.right) == "size"
     ctx.ob("D2", fors[0] if fors else af, "AKAI walks start at every sector of the table", ok, "", inst="akai-range")
 
 
